@@ -47,6 +47,7 @@ type c14Params struct {
 	Sizes   []int  `json:"sizes,omitempty"` // harness A: data sizes of the transactions for client 1 (client 2 gets one small one)
 	Reqs    []int  `json:"reqs,omitempty"`  // harness B: request kinds
 	Solo    bool   `json:"solo,omitempty"`  // harness B baseline: client a issues Reqs alone
+	Wrap    bool   `json:"wrap,omitempty"`  // harness B: the second client connects after the 16-bit id counter has wrapped
 }
 
 // c14Answered[kind] = the request kind gets a reply when issued alone (measured by a baseline
@@ -176,6 +177,16 @@ func c14B(p c14Params) (out explore.SchedOutcome) {
 	w := world.New(world.Cfg{Board: board, Accounts: []world.Acct{{Login: "guest", Name: "Guest", Access: world.AllAccess}}})
 	defer w.Close()
 	a, ra := w.Connect("10.0.0.1:1001", "guest", "", "alice")
+	if p.Wrap {
+		// 65,534 connections come and go: the next id handed out is the one after the wrap
+		vrt.Unmanaged(func() {
+			cc := &hotline.ClientConn{}
+			for i := 0; i < 65534; i++ {
+				w.Srv.ClientMgr.Add(cc)
+				w.Srv.ClientMgr.Delete(cc.ID)
+			}
+		})
+	}
 	b, rb := w.Connect("10.0.0.2:1002", "guest", "", "bob")
 	if ra == nil || rb == nil {
 		out.Violations = append(out.Violations, explore.SchedV{Signature: "C14/B/setup-login-failed", Detail: "login got no reply"})
@@ -294,8 +305,10 @@ func runC14(w *explore.Worker) {
 		boundA, boundB = 3, 2
 	}
 	// harness A: two transactions for client 1 (+ one for client 2); sizes around the 32 KiB copy buffer
-	sizes := []int{22, 300, 32767 - 26, 32768 - 26, 32769 - 26, 65535}
-	pairs := [][]int{{65535, 22}, {22, 65535}, {32769 - 26, 300}, {32768 - 26, 300}, {300, 22}, {65535, 40000}}
+	// a harness-A transaction is 20 (header) + 2 (count) + 4+n (data field) + 4+2 (options field) = 32+n bytes:
+	// n = 32768-32+d puts its end d bytes after the copy buffer's 32 KiB boundary
+	sizes := []int{22, 300, 32768 - 32 - 1, 32768 - 32, 32768 - 32 + 1, 32768 - 32 + 2, 32768 - 32 + 3, 65535}
+	pairs := [][]int{{65535, 22}, {22, 65535}, {32768 - 32 + 1, 300}, {32768 - 32 + 2, 300}, {32768 - 32, 300}, {32768 - 32 + 3, 22}, {300, 22}, {65535, 40000}}
 	if w.Thorough {
 		pairs = nil
 		for _, x := range sizes {
@@ -321,6 +334,7 @@ func runC14(w *explore.Worker) {
 	for _, r := range bp {
 		jobs = append(jobs, job{c14Params{Harness: "B", Reqs: r}, boundB})
 	}
+	jobs = append(jobs, job{c14Params{Harness: "B", Reqs: []int{c14KeepAlive, c14UserList, c14PM, c14KeepAlive}, Wrap: true}, 0})
 	maxBound := 0
 	c14Baseline(w)
 	for _, j := range jobs {
